@@ -315,8 +315,9 @@ class Run:
                 if nontrivial is None or nontrivial(rec):
                     self.nontrivial += 1
         if len(self.samples) < 6:
-            step = max(1, len(recs) // 3)
-            for rec in recs[::step][:3]:
+            pool = [r_ for r_ in recs if nontrivial is None or nontrivial(r_)] or recs
+            step = max(1, len(pool) // 3)
+            for rec in pool[step // 2::step][:3]:
                 self.samples.append({"stage": stage, "record": _clip(rec)})
         if need:
             counts = {}
